@@ -73,7 +73,7 @@ var props = map[string]propInfo{
 // runs of the current check (an interleaving-coverage measure for evidence).
 var distinctSchedules int
 
-var memLimitKB = map[string]int{"C11": 3 << 20, "C18": 4 << 20}
+var memLimitKB = map[string]int{"C11": 3 << 19, "C18": 4 << 20}
 
 func main() {
 	if len(os.Args) < 2 {
